@@ -4,4 +4,4 @@ Extraction Language OCaml.
 Extraction "C16/model_extracted.ml" force_types sv_parse sv_obs sv_run cc_parse ccr_obs ccr_run csp_parse_h cspr_obs cspr_run
   parse_list_header parse_dict_header dump_list dump_dict parse_dec parse_csp dump_csp int_prop_get
   cr_read crr_obs crr_after_obs crr_run parse_content_range
-  wa_read war_obs war_run wa_to_header wa_assign_list mp_step mp_obs.
+  wa_read war_obs war_run wa_to_header wa_assign_list mp_step mp_obs hp_set hp_get hp_del hp_text.
